@@ -32,7 +32,8 @@ enum Act {
     Enable,
     Disable,
     AreEnabled,
-    EnableAndHlt,
+    /// through call site `site` (0..=63): 64 copies whose code starts at every offset of a cache line
+    EnableAndHlt(u8),
     /// an interrupt becomes pending now
     Arrive(u8),
     /// an interrupt arrives `after` boundaries from now
@@ -52,7 +53,7 @@ fn parse(v: &Value) -> Act {
         "enable" => Act::Enable,
         "disable" => Act::Disable,
         "are_enabled" => Act::AreEnabled,
-        "enable_and_hlt" => Act::EnableAndHlt,
+        "enable_and_hlt" => Act::EnableAndHlt(v["site"].as_u64().unwrap_or(0) as u8 & 63),
         "arrive" => Act::Arrive(v["vector"].as_u64().unwrap_or(32) as u8),
         "arrive_later" => Act::ArriveLater(v["vector"].as_u64().unwrap_or(32) as u8, v["after"].as_u64().unwrap_or(1)),
         _ => Act::Work(v["n"].as_u64().unwrap_or(1) as u32),
@@ -75,7 +76,7 @@ fn gen_body(rng: &mut Rng, depth: u32, next_id: &mut u32, top: bool) -> Vec<Valu
             2 => json!({"op": "enable"}),
             3 => json!({"op": "disable"}),
             4 => json!({"op": "are_enabled"}),
-            5 => json!({"op": "enable_and_hlt"}),
+            5 => json!({"op": "enable_and_hlt", "site": rng.below(64)}),
             6 => json!({"op": "arrive", "vector": rng.range(32, 255)}),
             7 => json!({"op": "arrive_later", "vector": rng.range(32, 255), "after": rng.range(1, 24)}),
             9 => {
@@ -112,7 +113,7 @@ pub fn gen(seed: u64) -> Replay {
     if rng.chance(35) {
         steps.push(json!({"op": "disable"}));
         steps.push(json!({"op": "arrive", "vector": rng.range(32, 255)}));
-        steps.push(json!({"op": "enable_and_hlt"}));
+        steps.push(json!({"op": "enable_and_hlt", "site": rng.below(64)}));
     }
     // other system flags the environment may have left set (CPUID probing leaves ID, a `stac`
     // region AC, old task switches NT, IOPL by the loader): they must not confuse the flag logic
@@ -191,6 +192,20 @@ fn deep(n: u32, id: u32, reached: &mut u32) {
         }
     })
 }
+
+/// `enable_and_hlt` inlined behind K bytes of padding after a 64-byte boundary: together the 64
+/// call sites place the wrapper's instructions at every offset of a cache line (an alignment
+/// directive or a multi-byte nop inside the wrapper shows at some offsets only)
+#[inline(never)]
+fn eh_site<const K: usize>() {
+    unsafe { core::arch::asm!(".p2align 6", ".fill {k}, 1, 0x90", k = const K, options(nomem, nostack, preserves_flags)) };
+    interrupts::enable_and_hlt();
+}
+
+macro_rules! eh_table {
+    ($($k:literal)*) => { [$(eh_site::<$k> as fn()),*] };
+}
+static EH_SITES: [fn(); 64] = eh_table!(0 1 2 3 4 5 6 7 8 9 10 11 12 13 14 15 16 17 18 19 20 21 22 23 24 25 26 27 28 29 30 31 32 33 34 35 36 37 38 39 40 41 42 43 44 45 46 47 48 49 50 51 52 53 54 55 56 57 58 59 60 61 62 63);
 
 const LEAF_N: usize = 12;
 
@@ -371,7 +386,7 @@ fn exec(acts: &[Act], obs: &mut Obs) {
             Act::Enable => interrupts::enable(),
             Act::Disable => interrupts::disable(),
             Act::AreEnabled => obs.are_enabled.push(interrupts::are_enabled()),
-            Act::EnableAndHlt => interrupts::enable_and_hlt(),
+            Act::EnableAndHlt(site) => EH_SITES[*site as usize & 63](),
             Act::Arrive(v) => {
                 let c = &mut world().cpu;
                 hold(c, true);
@@ -454,7 +469,7 @@ impl Model {
                     self.seq.push(Ev::Pushfq { val: 0 });
                     self.are_enabled.push(self.iflag);
                 }
-                Act::EnableAndHlt => {
+                Act::EnableAndHlt(_) => {
                     self.seq.push(Ev::Sti);
                     self.seq.push(Ev::Hlt);
                     self.iflag = true;
@@ -581,7 +596,7 @@ pub fn run(rp: &Replay, st: &mut Stats) -> Option<Violation> {
             }
         }
         // 4. enable_and_hlt: no window between sti and hlt, no lost wake-up
-        if let Act::EnableAndHlt = a {
+        if let Act::EnableAndHlt(_) = a {
             let core: Vec<&Ev> = trace.iter().filter(|e| !matches!(e, Ev::Mark(_))).collect();
             let pos_sti = core.iter().position(|e| matches!(e, Ev::Sti));
             let pos_hlt = core.iter().position(|e| matches!(e, Ev::Hlt));
@@ -629,7 +644,7 @@ pub fn run(rp: &Replay, st: &mut Stats) -> Option<Violation> {
             Act::Enable => 2,
             Act::Disable => 3,
             Act::AreEnabled => 4,
-            Act::EnableAndHlt => 5,
+            Act::EnableAndHlt(_) => 5,
             Act::Arrive(_) => 6,
             Act::ArriveLater(..) => 7,
             Act::Work(_) => 8,
